@@ -74,6 +74,8 @@ def finish(prop, tier, seed, results, bounded, findings, wall, write=True):
         elif r['status'] == 'undecided':
             fn['reason'] = r.get('reason')
             bounded_this_run.append(r['target'])
+        elif r['status'] == 'bounded-only':
+            fn['kind'] = 'B (run-time contract on the real function over an enumerated scope; never counted as proved)'
         for o in r['obligations']:
             n_ob += 1
             by_backend[o['backend']] = by_backend.get(o['backend'], 0) + (1 if o['verdict'] == 'unsat' else 0)
@@ -111,7 +113,7 @@ def finish(prop, tier, seed, results, bounded, findings, wall, write=True):
                                        where=r.get('where'), inputs=f.get('inputs'), replay={k: v for k, v in f.items() if k != 'inputs'},
                                        src_hash=r.get('src_hash')))
             if c['samples'] and len(samples) < 6: samples.append(dict(kind='concrete-case', target=r['target'], **c['samples'][0]))
-        elif r['status'] == 'undecided':
+        elif r['status'] in ('undecided', 'bounded-only'):
             undecided.append(dict(id=r['target'], verdict='no-bounded-fallback', reason=r.get('reason')))
         functions.append(fn)
     b_cases = 0; b_distinct = 0; b_summ = []
@@ -186,7 +188,7 @@ def finish(prop, tier, seed, results, bounded, findings, wall, write=True):
           f'concrete {conc_cases}; bounded {b_cases} cases in {len(b_summ)} checks; undecided {len(undecided)}; {wall:.1f}s wall')
     for u in undecided[:15]: print('  undecided:', json.dumps(u, default=str)[:300])
     for fn in functions:
-        if fn['status'] != 'ok': print('  target', fn['target'], fn['status'], fn.get('reason'))
+        if fn['status'] not in ('ok', 'bounded-only'): print('  target', fn['target'], fn['status'], fn.get('reason'))
     for f in fault: print('CHECKER-FAULT:', f)
     for l in lines: print(l)
     return code
